@@ -515,6 +515,14 @@ func (fc *FnCtx) frameCheck(st *State, where string, pos token.Pos) {
 	sc := fc.specCtx(fc.entry.Clone(), nil)
 	for _, m := range fc.c.Modifies {
 		if _, isGhost := sc.ghostLvalOf(m); isGhost {
+			// out(b) of an in-memory buffer (strings.Builder / bytes.Buffer) is the buffer object itself
+			if call, ok := m.(*ast.CallExpr); ok && exprString(call.Fun) == "out" && len(call.Args) == 1 {
+				if w := sc.tryEval(call.Args[0]); w != nil {
+					if id, ok := sc.bufferObject(w); ok {
+						allowed[tgt{id, "*"}] = true
+					}
+				}
+			}
 			continue
 		}
 		if rootIsCV(m) {
@@ -834,9 +842,21 @@ var thoroughTier = Tier{"thorough", 60, 0, true}
 // else falls through to the individual solver race (which also produces models).
 func (e *Engine) batchDischarge(workdir string) {
 	var pending []*Obligation
+	qmemo := map[*Term]bool{}
 	for _, o := range e.obls {
 		if o.Verdict == "" && o.LangLeft == nil {
-			pending = append(pending, o)
+			// quantified obligations are decided one by one (with the weaker-query attempts); inside a batch each
+			// of them would sit out its time limit while the others wait
+			quant := o.Goal != nil && hasQuantifier(o.Goal, qmemo)
+			for _, h := range o.Hyps {
+				if quant {
+					break
+				}
+				quant = hasQuantifier(h, qmemo)
+			}
+			if !quant {
+				pending = append(pending, o)
+			}
 		}
 	}
 	if len(pending) < 40 {
@@ -974,8 +994,109 @@ func (e *Engine) dischargeOne(o *Obligation, tier Tier, workdir string) {
 		o.Output = fmt.Sprintf("VC too large (%d bytes): function is outside reach", len(q))
 		return
 	}
-	res := RunSolvers(q, tier.TimeoutS, tier.All, workdir, o.Name)
-	if (res.Verdict == "timeout" || res.Verdict == "unknown") && tier.RetryS > 0 {
+	var res SolverResult
+	// Weaker queries (sound: each only drops or abstracts hypotheses / theory facts, and only "unsat" is accepted from
+	// them): local proof attempts from the most recent hypotheses or from the last asserted stepping stones, and the
+	// string abstraction (String as an uninterpreted sort) for arguments in which strings are only opaque values.
+	type attempt struct {
+		label string
+		query string
+	}
+	var weaker []attempt
+	if !o.Cover {
+		if aq, ok := AbstractStringsQuery(q); ok && (strings.Contains(q, "(forall") || strings.Contains(q, "(exists")) {
+			weaker = append(weaker, attempt{"string abstraction", aq})
+		}
+		if !o.AbsPrefix && strings.Count(q, "str.prefixof") >= 3 {
+			// chains of append-only facts: the prefix relation as an abstract order (reflexive, transitive instances)
+			ph, pg := AbstractPrefix(hy, gl)
+			weaker = append(weaker, attempt{"prefix order abstracted", SMTQuery(ph, pg, extra, true)})
+		}
+		if len(o.Hyps) > 120 {
+			uniq := DedupeHyps(o.Hyps)
+			for _, win := range []int{12, 40, -2, -8} {
+				if win >= len(uniq) {
+					continue
+				}
+				var sel []*Term
+				label := ""
+				if win > 0 {
+					sel = uniq[len(uniq)-win:]
+					label = fmt.Sprintf("last %d hypotheses", win)
+				} else {
+					var keys []int
+					for i, h := range uniq {
+						if keyFacts[h] {
+							keys = append(keys, i)
+						}
+					}
+					if len(keys) == 0 {
+						continue
+					}
+					if len(keys) > -win {
+						keys = keys[len(keys)+win:]
+					}
+					for _, i := range keys {
+						sel = append(sel, uniq[i])
+					}
+					if len(uniq) > 12 {
+						sel = append(sel, uniq[len(uniq)-12:]...)
+					}
+					label = fmt.Sprintf("last %d asserted stepping stones", -win)
+				}
+				wh, wg := SliceHyps(sel, o.Goal), o.Goal
+				if o.AbsPrefix {
+					wh, wg = AbstractPrefix(wh, wg)
+				}
+				wq := SMTQuery(wh, wg, extra, true)
+				if aq, ok := AbstractStringsQuery(wq); ok {
+					weaker = append(weaker, attempt{label + ", string abstraction", aq})
+				} else {
+					weaker = append(weaker, attempt{label, wq})
+				}
+			}
+		}
+	}
+	if o.Cover && strings.Contains(q, "(forall") {
+		// a cover query only has to find a contradiction; with quantified hypotheses "sat" is out of reach anyway
+		to := tier.TimeoutS
+		if to > 4 {
+			to = 4
+		}
+		res = RunSolvers(q, to, false, workdir, o.Name)
+	} else if len(weaker) == 0 {
+		res = RunSolvers(q, tier.TimeoutS, tier.All, workdir, o.Name)
+	} else {
+		type wres struct {
+			r     SolverResult
+			label string
+		}
+		ch := make(chan wres, len(weaker)+1)
+		actx, acancel := context.WithCancel(context.Background())
+		defer acancel()
+		go func() { ch <- wres{RunSolversCtx(actx, q, tier.TimeoutS, tier.All, workdir, o.Name), ""} }()
+		for i, a := range weaker {
+			i, a := i, a
+			go func() {
+				ch <- wres{RunSolversCtx(actx, a.query, tier.TimeoutS, false, workdir, fmt.Sprintf("%s.weak%d", o.Name, i)), a.label}
+			}()
+		}
+		for i := 0; i <= len(weaker); i++ {
+			w := <-ch
+			if w.label == "" {
+				if res.Verdict != "unsat" {
+					res = w.r
+				}
+			} else if w.r.Verdict == "unsat" && res.Verdict != "unsat" {
+				w.r.Solver += " (" + w.label + ")"
+				res = w.r
+			}
+			if res.Verdict == "unsat" {
+				break
+			}
+		}
+	}
+	if (res.Verdict == "timeout" || res.Verdict == "unknown" || res.Verdict == "") && tier.RetryS > 0 && !o.Cover {
 		res = RunSolvers(q, tier.RetryS, true, workdir, o.Name)
 	}
 	o.Verdict, o.Solver, o.Output = res.Verdict, res.Solver, res.Output
@@ -1016,4 +1137,22 @@ func (e *Engine) dischargeLang(o *Obligation, tier Tier, workdir string) {
 			o.Output = "reglang says " + own + ", " + res.Solver + " says " + res.Verdict + "\n" + res.Output
 		}
 	}
+}
+
+func hasQuantifier(t *Term, memo map[*Term]bool) bool {
+	if t == nil {
+		return false
+	}
+	if v, ok := memo[t]; ok {
+		return v
+	}
+	r := t.Op == "forall" || t.Op == "exists"
+	for _, a := range t.Args {
+		if r {
+			break
+		}
+		r = hasQuantifier(a, memo)
+	}
+	memo[t] = r
+	return r
 }
